@@ -533,3 +533,22 @@ Theorem C03_extender_overlap_refuted : exists N gs hs rules protos p g,
   can_extend hs (nth_rule rules (p_rule p)) g = true /\ overlap (snd g) (p_core p) = true /\ contains (p_core p) (snd g) = false.
 Proof. exact extender_overlap_refuted. Qed.
 Print Assumptions C03_extender_overlap_refuted.
+
+(* "the protoclusters of a rule are the maximal groups ... each core is the smallest span covering its group", for a chain
+   through an origin-spanning anchoring gene.  False (finding C03-K10 chain_spanning_anchor_wrong_side): on a circular
+   record of 12000 bases with cutoff 2000 the pipeline returns ONE protocluster whose core contains the anchoring gene
+   [2500:2800), although that gene is at least the cutoff away from every other anchoring gene (it is a chain of its own).
+   The cause is stated with it: connect_locations of [5000:5800) and the origin-bridging [7000:12000)+[0:80) returns
+   [7000:12000)+[0:5800) (10800 bases), not the covering arc [5000:12000)+[0:80) (7080 bases): with an origin-bridging argument
+   every other location is put before or after the origin by which end of the record its middle is nearer to (5400 < 6000:
+   "after"), which is the right side whenever the shortest covering arc is at most half the record, and need not be for a
+   longer one. *)
+Theorem C03_spanning_chain_wrong_side_refuted : exists N gs hs rules p far,
+  pipeline N true gs hs rules true = Ok [p] /\ In far gs /\ contains (p_core p) (snd far) = true /\
+  (forall g, In g gs -> g <> far -> r_cut (nth_rule rules 0) <= dist (snd far) (snd g) (Some N)) /\
+  connect_locations [[mkPart 5000 5800 1]; [mkPart 7000 12000 1; mkPart 0 80 1]] (Some N)
+    = Ok [mkPart 7000 12000 1; mkPart 0 5800 1] /\
+  contains [mkPart 5000 12000 1; mkPart 0 80 1] [mkPart 5000 5800 1] = true /\
+  contains [mkPart 5000 12000 1; mkPart 0 80 1] [mkPart 7000 12000 1; mkPart 0 80 1] = true.
+Proof. exact spanning_chain_wrong_side_refuted. Qed.
+Print Assumptions C03_spanning_chain_wrong_side_refuted.
